@@ -459,7 +459,10 @@ def run(ctx):
             rscen.append(beh_to_scenario(sc, beh))
             rbeh.append(beh)
             rsc.append(sc)
-    results = driver.run_batch(exe, symtab, rscen, nproc=8)
+    if not quick:       # bulk: real pthreads for every 4th replay, coroutines (identical runs) for the rest
+        for k, x in enumerate(rscen):
+            x["coro"] = int(k % 4 != 0)
+    results = driver.run_batch(exe, symtab, rscen, nproc=8 if quick else 12)
     divergences, edges = [], set()
     for sc, beh, d in zip(rsc, rbeh, results):
         ctx.case(("replay", scen_name(sc), tuple((t, l) for t, l, _a, _b in beh)))
